@@ -586,7 +586,7 @@ func (c *Client) processSuback(suback *packet.Suback) error {
 	// remove packet from store
 	err := c.Session.DeletePacket(session.Outgoing, suback.ID)
 	if err != nil {
-		return err
+		return c.die(err, true)
 	}
 
 	// get future
@@ -619,7 +619,7 @@ func (c *Client) processUnsuback(unsuback *packet.Unsuback) error {
 	// remove packet from store
 	err := c.Session.DeletePacket(session.Outgoing, unsuback.ID)
 	if err != nil {
-		return err
+		return c.die(err, true)
 	}
 
 	// get future
@@ -688,7 +688,7 @@ func (c *Client) processPubackAndPubcomp(id packet.ID) error {
 	// remove packet from store
 	err := c.Session.DeletePacket(session.Outgoing, id)
 	if err != nil {
-		return err
+		return c.die(err, true)
 	}
 
 	// get future
